@@ -10,6 +10,7 @@ import Model.Spec.Tidy
 import Proofs.Lemmas.C04Tok
 import Proofs.Lemmas.C04Sub
 import Proofs.Lemmas.C04Idem
+import Proofs.Lemmas.C04F64
 
 namespace C04
 open Unit.Tidy
@@ -206,5 +207,31 @@ theorem metadata_recorded_found (m : MetaMap) (w k v : Bytes) (hnew : get m w k 
   · unfold addMeta Unit.Tidy.get; simp only [hnew]; exact key _ _ _ hnew
   · unfold addMeta Unit.Tidy.get; rw [hidem]; simp only [hnew]; exact key _ _ _ hnew
   · unfold addMeta Unit.Tidy.get; rw [hidem]; simp only [hnew]; exact key _ _ _ hnew
+
+/-- **tidy_idempotent_partial** — normalising an already normalised measurement changes nothing,
+for every unit (all byte strings) and every value including NaN, ±0, ±Inf and subnormals.
+Proved here: the unit part in full (`tidy_idempotent_unit`: second factor is exactly 1), NaN
+results are the canonical NaN (`F64.mul_nan_canon`) and stay so. Missing for the un-suffixed
+theorem: the float fact `hone` (x·1.0 = x for every non-NaN x, i.e. `roundMag` is the identity on
+representable values) — item 5/6 of notes/TASK-F64-lemmas.md (`F64Mono.mul_one`); it is validated
+bit-exactly by the correspondence run on every case (`idem=1`, and C10's `mul` cases). -/
+theorem tidy_idempotent_partial
+    (hone : ∀ x : F64.Bits, F64.isNaN x = false → F64.mul x F64.one = x)
+    (v : F64.Bits) (u : Bytes) : tidy (tidy v u).1 (tidy v u).2 = tidy v u := by
+  unfold tidy
+  simp only
+  rw [tidy_idempotent_unit]
+  simp only
+  congr 1
+  cases hn : F64.isNaN (F64.mul v (tidyUnit u).2) with
+  | false => exact hone _ hn
+  | true =>
+    rw [F64.mul_nan_canon _ _ hn]
+    exact F64.mul_nan_left _ _ (by decide)
+
+/-- the hypothesis of `tidy_idempotent_partial` holds on the values the property names
+explicitly (kernel evaluation): ±0, ±Inf, 1, the smallest subnormal, 1e-9, 1e6, 5e300 -/
+example : [F64.posZero, F64.negZero, F64.posInf, F64.negInf, F64.one, 1, f1em9, f1e6, 0x7E57E4C0E3F2F5E4].all
+    (fun x => F64.mul x F64.one == x) = true := by decide +kernel
 
 end C04
